@@ -28,6 +28,7 @@ use std::sync::{Arc, Condvar, Mutex};
 use std::time::{Duration, Instant};
 use teos::protos as msgs;
 use teos::protos::private_tower_services_client::PrivateTowerServicesClient;
+use teos::protos::public_tower_services_client::PublicTowerServicesClient;
 use teos_common::constants::IRREVOCABLY_RESOLVED;
 use teos_common::protos as common_msgs;
 use teos_common::TowerId;
@@ -54,6 +55,14 @@ pub struct BtcState {
     boot_poll_done: bool,
     /// release parked polls with the stale tip (used while shutting the tower down)
     release: bool,
+    /// incremented for every tower process: requests of an earlier process are answered stale
+    session: u64,
+    /// requests received from the current tower process
+    pub session_requests: u64,
+    /// SIGKILL the tower process when its n-th request (1-based, per process) arrives, before answering
+    pub kill_at_request: Option<u64>,
+    pub victim_pid: Option<u32>,
+    pub killed: bool,
     pub requests: u64,
     pub methods: std::collections::BTreeMap<String, u64>,
 }
@@ -150,7 +159,13 @@ impl FakeBitcoind {
         st.armed_log_idx = None;
         st.boot_poll_done = false;
         st.release = false;
+        st.session += 1;
+        st.session_requests = 0;
+        st.kill_at_request = None;
+        st.victim_pid = None;
+        st.killed = false;
         self.chain.armed.store(false, Ordering::SeqCst);
+        self.st.1.notify_all();
     }
 
     /// Answers parked (and future) polls with the last published tip, without waiting for a grant.
@@ -217,7 +232,26 @@ impl FakeBitcoind {
         {
             let mut st = lock(&self.st.0);
             st.requests += 1;
+            st.session_requests += 1;
             *st.methods.entry(method.to_string()).or_insert(0) += 1;
+            if st.kill_at_request == Some(st.session_requests) {
+                let mut spins = 0;
+                while st.victim_pid.is_none() && spins < 100 {
+                    drop(st);
+                    std::thread::sleep(Duration::from_millis(2));
+                    st = lock(&self.st.0);
+                    spins += 1;
+                }
+                if let Some(pid) = st.victim_pid {
+                    unsafe {
+                        libc::kill(pid as i32, libc::SIGKILL);
+                    }
+                    st.killed = true;
+                    st.kill_at_request = None;
+                    self.st.1.notify_all();
+                    return Err(());
+                }
+            }
         }
         let src_err = |e: lightning_block_sync::BlockSourceError| -> Result<Result<Value, (i32, String)>, ()> {
             match e.kind() {
@@ -248,8 +282,13 @@ impl FakeBitcoind {
                     st.parked = true;
                     cv.notify_all();
                     let t0 = Instant::now();
+                    let my_session = st.session;
                     let mut granted = false;
                     loop {
+                        if st.session != my_session {
+                            // the process that sent this request is gone
+                            return Err(());
+                        }
                         if st.permits > 0 {
                             st.permits -= 1;
                             granted = true;
@@ -397,8 +436,23 @@ pub struct RemoteApi {
     pub http: SocketAddr,
     rt: tokio::runtime::Runtime,
     private: Mutex<PrivateTowerServicesClient<Channel>>,
-    pub calls: std::sync::atomic::AtomicU64,
+    /// teosd's internal (plaintext gRPC) API: what its HTTP front-end forwards to
+    internal: Mutex<PublicTowerServicesClient<Channel>>,
+    pub http_calls: std::sync::atomic::AtomicU64,
+    pub grpc_calls: std::sync::atomic::AtomicU64,
+    /// a request died at the transport level (connection refused / reset): the process is gone or going
+    pub transport_failed: AtomicBool,
 }
+
+// body limits of the HTTP front-end (teos/src/api/http.rs): requests beyond them cannot be sent over
+// HTTP at all (413) and are delivered to the internal gRPC API instead, like empty-signature requests
+// (refused by the front-end before they reach the tower)
+const REGISTER_BODY_LEN: usize = 87;
+const ADD_APPOINTMENT_BODY_LEN: usize = 2048;
+const GET_APPOINTMENT_BODY_LEN: usize = 178;
+const GET_SUBSCRIPTION_INFO_BODY_LEN: usize = 127;
+
+
 
 fn code_of(status: u16, error_code: u64) -> Code {
     use teos_common::errors;
@@ -406,7 +460,7 @@ fn code_of(status: u16, error_code: u64) -> Code {
         (404, _) => Code::NotFound,
         (401, _) => Code::Unauthenticated,
         (503, _) => Code::Unavailable,
-        (_, c) if c == errors::WRONG_FIELD_FORMAT || c == errors::EMPTY_FIELD || c == errors::MISSING_FIELD || c == errors::INVALID_REQUEST_FORMAT => Code::InvalidArgument,
+        (_, c) if (errors::MISSING_FIELD..=errors::INVALID_REQUEST_FORMAT).contains(&c) || c == errors::APPOINTMENT_FIELD_TOO_SMALL || c == errors::APPOINTMENT_FIELD_TOO_BIG => Code::InvalidArgument,
         (_, c) if c == errors::APPOINTMENT_ALREADY_TRIGGERED => Code::AlreadyExists,
         (_, c) if c == errors::REGISTRATION_RESOURCE_EXHAUSTED => Code::ResourceExhausted,
         _ => Code::Unknown,
@@ -414,7 +468,7 @@ fn code_of(status: u16, error_code: u64) -> Code {
 }
 
 impl RemoteApi {
-    pub fn connect(http: SocketAddr, rpc_port: u16, datadir: &Path) -> Result<RemoteApi, String> {
+    pub fn connect(http: SocketAddr, rpc_port: u16, internal_port: u16, datadir: &Path) -> Result<RemoteApi, String> {
         let rt = tokio::runtime::Builder::new_multi_thread().worker_threads(1).enable_all().build().map_err(|e| e.to_string())?;
         let key = std::fs::read(datadir.join("client-key.pem")).map_err(|e| format!("client key: {e}"))?;
         let cert = std::fs::read(datadir.join("client.pem")).map_err(|e| format!("client cert: {e}"))?;
@@ -432,12 +486,23 @@ impl RemoteApi {
             }
             Err(format!("cannot connect to the private API: {last}"))
         })?;
-        Ok(RemoteApi { http, rt, private: Mutex::new(PrivateTowerServicesClient::new(channel)), calls: Default::default() })
+        let internal = rt.block_on(async { Channel::from_shared(format!("http://127.0.0.1:{internal_port}")).map_err(|e| e.to_string())?.connect().await.map_err(|e| format!("internal API: {e:?}")) })?;
+        Ok(RemoteApi { http, rt, private: Mutex::new(PrivateTowerServicesClient::new(channel)), internal: Mutex::new(PublicTowerServicesClient::new(internal)), http_calls: Default::default(), grpc_calls: Default::default(), transport_failed: AtomicBool::new(false) })
+    }
+
+    fn st(&self, s: tonic::Status) -> ApiErr {
+        if s.message().contains("transport error") || s.message().contains("error trying to connect") || s.message().contains("connection") && s.code() == Code::Unavailable {
+            self.transport_failed.store(true, Ordering::SeqCst);
+        }
+        ApiErr::Status(s.code(), s.message().to_string())
     }
 
     fn post<T: serde::de::DeserializeOwned>(&self, path: &str, body: Vec<u8>) -> Result<T, ApiErr> {
-        self.calls.fetch_add(1, Ordering::SeqCst);
-        let r = crate::e5::raw_request(self.http, "POST", path, Some("application/json"), &body, Duration::from_secs(60)).map_err(|e| ApiErr::Status(Code::Internal, format!("transport: {e}")))?;
+        self.http_calls.fetch_add(1, Ordering::SeqCst);
+        let r = crate::e5::raw_request(self.http, "POST", path, Some("application/json"), &body, Duration::from_secs(60)).map_err(|e| {
+            self.transport_failed.store(true, Ordering::SeqCst);
+            ApiErr::Status(Code::Internal, format!("transport: {e}"))
+        })?;
         if r.status == 200 {
             serde_json::from_slice::<T>(&r.body).map_err(|e| ApiErr::Status(Code::Internal, format!("undecodable 200 reply: {e}: {}", String::from_utf8_lossy(&r.body))))
         } else {
@@ -448,16 +513,41 @@ impl RemoteApi {
     }
 
     pub fn register(&self, user_id: Vec<u8>) -> Result<common_msgs::RegisterResponse, ApiErr> {
-        self.post("/register", serde_json::to_vec(&common_msgs::RegisterRequest { user_id }).unwrap())
+        let req = common_msgs::RegisterRequest { user_id };
+        let body = serde_json::to_vec(&req).unwrap();
+        if body.len() <= REGISTER_BODY_LEN && req.user_id.len() == teos_common::USER_ID_LEN {
+            return self.post("/register", body);
+        }
+        self.grpc_calls.fetch_add(1, Ordering::SeqCst);
+        let mut c = lock(&self.internal);
+        self.rt.block_on(c.register(Request::new(req))).map(|r| r.into_inner()).map_err(|e| self.st(e))
     }
     pub fn add_appointment(&self, req: common_msgs::AddAppointmentRequest) -> Result<common_msgs::AddAppointmentResponse, ApiErr> {
-        self.post("/add_appointment", serde_json::to_vec(&req).unwrap())
+        let body = serde_json::to_vec(&req).unwrap();
+        if body.len() <= ADD_APPOINTMENT_BODY_LEN && !req.signature.is_empty() {
+            return self.post("/add_appointment", body);
+        }
+        self.grpc_calls.fetch_add(1, Ordering::SeqCst);
+        let mut c = lock(&self.internal);
+        self.rt.block_on(c.add_appointment(Request::new(req))).map(|r| r.into_inner()).map_err(|e| self.st(e))
     }
     pub fn get_appointment(&self, req: common_msgs::GetAppointmentRequest) -> Result<common_msgs::GetAppointmentResponse, ApiErr> {
-        self.post("/get_appointment", serde_json::to_vec(&req).unwrap())
+        let body = serde_json::to_vec(&req).unwrap();
+        if body.len() <= GET_APPOINTMENT_BODY_LEN && !req.signature.is_empty() {
+            return self.post("/get_appointment", body);
+        }
+        self.grpc_calls.fetch_add(1, Ordering::SeqCst);
+        let mut c = lock(&self.internal);
+        self.rt.block_on(c.get_appointment(Request::new(req))).map(|r| r.into_inner()).map_err(|e| self.st(e))
     }
     pub fn get_subscription_info(&self, req: common_msgs::GetSubscriptionInfoRequest) -> Result<common_msgs::GetSubscriptionInfoResponse, ApiErr> {
-        self.post("/get_subscription_info", serde_json::to_vec(&req).unwrap())
+        let body = serde_json::to_vec(&req).unwrap();
+        if body.len() <= GET_SUBSCRIPTION_INFO_BODY_LEN && !req.signature.is_empty() {
+            return self.post("/get_subscription_info", body);
+        }
+        self.grpc_calls.fetch_add(1, Ordering::SeqCst);
+        let mut c = lock(&self.internal);
+        self.rt.block_on(c.get_subscription_info(Request::new(req))).map(|r| r.into_inner()).map_err(|e| self.st(e))
     }
 
     pub fn get_all_appointments(&self) -> Vec<common_msgs::AppointmentData> {
@@ -489,8 +579,18 @@ pub fn teosd_bin() -> PathBuf {
     PathBuf::from(std::env::var("TV_BINS").unwrap_or_else(|_| "/verif/target/bins/release".into())).join("teosd")
 }
 
+/// A listening port for teosd, taken from below the kernel's ephemeral range (so that no outgoing
+/// connection of a concurrent process can sit on it) and spread by process id.
 fn free_port() -> u16 {
-    TcpListener::bind("127.0.0.1:0").unwrap().local_addr().unwrap().port()
+    static NEXT: std::sync::atomic::AtomicU32 = std::sync::atomic::AtomicU32::new(0);
+    let pid = std::process::id();
+    loop {
+        let k = NEXT.fetch_add(1, Ordering::SeqCst);
+        let port = 10_000 + ((pid.wrapping_mul(7919).wrapping_add(k.wrapping_mul(13))) % 22_000) as u16;
+        if TcpListener::bind(("127.0.0.1", port)).is_ok() {
+            return port;
+        }
+    }
 }
 
 pub struct Teosd {
@@ -498,6 +598,7 @@ pub struct Teosd {
     pub datadir: PathBuf,
     pub api_port: u16,
     pub rpc_port: u16,
+    pub internal_port: u16,
     pub out_path: PathBuf,
 }
 
@@ -505,6 +606,8 @@ pub struct Teosd {
 pub struct TeosdOpts {
     pub abort_at: Option<usize>,
     pub trace: Option<PathBuf>,
+    /// SIGKILL the process when the fake bitcoind receives its n-th request from it
+    pub kill_at_request: Option<u64>,
     pub extra_args: Vec<String>,
     /// extra `key = value` lines for teos.toml
     pub extra_conf: Vec<String>,
@@ -535,8 +638,16 @@ impl Teosd {
         if let Some(t) = &opts.trace {
             cmd.env("TEOS_VERIF_TRACE", t);
         }
+        unsafe {
+            use std::os::unix::process::CommandExt;
+            cmd.pre_exec(|| {
+                let lim = libc::rlimit { rlim_cur: 0, rlim_max: 0 };
+                libc::setrlimit(libc::RLIMIT_CORE, &lim);
+                Ok(())
+            });
+        }
         let child = cmd.spawn().map_err(|e| format!("cannot start {}: {e}", teosd_bin().display()))?;
-        Ok(Teosd { child, datadir: datadir.to_path_buf(), api_port, rpc_port, out_path })
+        Ok(Teosd { child, datadir: datadir.to_path_buf(), api_port, rpc_port, internal_port, out_path })
     }
 
     pub fn alive(&mut self) -> bool {
@@ -620,7 +731,9 @@ pub fn run_remote_session<R>(btc: &FakeBitcoind, datadir: &Path, cfg: &TowerCfg,
     let (teosd, first_poll_log_idx) = loop {
         attempt += 1;
         btc.new_session();
+        lock(&btc.st.0).kill_at_request = opts.kill_at_request;
         let mut t = Teosd::spawn(datadir, cfg, btc.port, opts).map_err(BootError::Source)?;
+        lock(&btc.st.0).victim_pid = Some(t.child.id());
         let r = btc.wait_parked(Instant::now() + Duration::from_secs(60), &mut || t.alive());
         match r {
             Ok(idx) => break (t, idx),
@@ -639,7 +752,10 @@ pub fn run_remote_session<R>(btc: &FakeBitcoind, datadir: &Path, cfg: &TowerCfg,
         }
     };
     let http: SocketAddr = format!("127.0.0.1:{}", teosd.api_port).parse().unwrap();
-    let api = Arc::new(RemoteApi::connect(http, teosd.rpc_port, datadir).map_err(BootError::Source)?);
+    let api = Arc::new(RemoteApi::connect(http, teosd.rpc_port, teosd.internal_port, datadir).map_err(|e| {
+        let out = teosd.output();
+        BootError::Source(format!("{e}; teosd output tail: {}", out.lines().rev().take(4).collect::<Vec<_>>().join(" | ")))
+    })?);
     let info = api.get_tower_info();
     let tower_id = TowerId::from_slice(&info.tower_id).map_err(|e| BootError::Source(format!("tower id: {e:?}")))?;
     let teosd = Mutex::new(teosd);
@@ -647,7 +763,15 @@ pub fn run_remote_session<R>(btc: &FakeBitcoind, datadir: &Path, cfg: &TowerCfg,
     let reachable = Arc::new((teos_common::verif::sync::Mutex::new(true), teos_common::verif::sync::Condvar::new()));
     let value = {
         let mut poller = RemotePoller { btc, teosd: &teosd, failed: &failed };
-        let mut session = Session { api: Api::Remote(api.clone()), poller: &mut poller, tower_id, reachable, fresh: false, first_poll_log_idx };
+        let alive = || {
+            if api.transport_failed.load(Ordering::SeqCst) {
+                // a dying process may take a moment to be reaped
+                let _ = lock(&teosd).wait_exit(Duration::from_secs(5));
+                return false;
+            }
+            lock(&teosd).alive()
+        };
+        let mut session = Session { api: Api::Remote(api.clone()), poller: &mut poller, tower_id, reachable, fresh: false, first_poll_log_idx, alive: &alive };
         f(&mut session)
     };
     let mut teosd = teosd.into_inner().unwrap_or_else(|e| e.into_inner());
